@@ -8,12 +8,15 @@
 package registry
 
 import (
+	"archive/tar"
 	"bytes"
 	"crypto/sha1"
 	"encoding/hex"
 	"encoding/json"
 	"errors"
 	"fmt"
+	"mime/multipart"
+	"net/http/httptest"
 	"net/url"
 	"os"
 	"path/filepath"
@@ -26,6 +29,7 @@ import (
 	"testing"
 	"time"
 
+	"github.com/cenkalti/rain/v2/internal/resumer/boltdbresumer"
 	"github.com/cenkalti/rain/v2/internal/storage"
 	"github.com/cenkalti/rain/v2/internal/storage/filestorage"
 	"github.com/cenkalti/rain/v2/torrent"
@@ -80,6 +84,7 @@ type fixture struct {
 	Trackers [][]string
 	HasInfo  bool
 	Magnet   string
+	Info     []byte
 }
 
 const (
@@ -109,12 +114,13 @@ func mkTorrent(name string, length int, seedByte byte, webseeds []string) fixtur
 	} else if len(webseeds) > 1 {
 		top.Set("url-list", webseeds)
 	}
-	return fixture{Bytes: refcodec.Benc(top), IH: hex.EncodeToString(ih[:]), Name: name, Webseeds: webseeds, HasInfo: true}
+	return fixture{Bytes: refcodec.Benc(top), IH: hex.EncodeToString(ih[:]), Name: name, Webseeds: webseeds, HasInfo: true, Info: info}
 }
 
 var (
 	fixX = mkTorrent("x-αβγ.bin", 20000, 3, []string{"http://127.0.0.1:1/ws-x"})
 	fixY = mkTorrent("y file.bin", 5, 9, []string{"http://127.0.0.1:1/ws-y1", "http://127.0.0.1:1/ws-y2"})
+	fixV = mkTorrent("v moved.bin", 7, 5, nil)
 	fixZ = func() fixture {
 		ih := sha1.Sum([]byte("c14 magnet fixture"))
 		h := hex.EncodeToString(ih[:])
@@ -178,6 +184,7 @@ type mtor struct {
 
 type model struct {
 	Live []*mtor // add order
+	FS   bool    // the session uses rain's own file storage provider (histories that begin with the marker op "fs"): torrents can be moved in
 }
 
 func (m *model) find(slot string) *mtor {
@@ -235,11 +242,29 @@ func (m *model) key(base int) string {
 			free = append(free, strconv.Itoa(p-base))
 		}
 	}
-	return strings.Join(ents, " ; ") + " ; free=" + strings.Join(free, ",")
+	fs := ""
+	if m.FS {
+		fs = " ; fs"
+	}
+	return strings.Join(ents, " ; ") + " ; free=" + strings.Join(free, ",") + fs
 }
 
 func (m *model) nextOps() []op {
 	var out []op
+	if m.FS {
+		// move-in exploration: a small alphabet around the handler that receives a torrent from another session
+		out = append(out, op{K: "addT", T: "a"}, op{K: "addT", T: "b"}, op{K: "mv", T: "own"}, op{K: "mv", T: "free"}, op{K: "mv", T: "out"})
+		for _, s := range []string{"a", "v"} {
+			if m.find(s) != nil {
+				out = append(out, op{K: "rm", T: s, Keep: false})
+			}
+		}
+		if m.find("v") != nil {
+			out = append(out, op{K: "start", T: "v"}, op{K: "trk", T: "v"})
+		}
+		out = append(out, op{K: "compact"}, op{K: "reopen"})
+		return out
+	}
 	for _, s := range []string{"a", "b", "auto"} {
 		out = append(out, op{K: "addT", T: s})
 	}
@@ -489,7 +514,7 @@ func (r *runner) openSession() error {
 	return nil
 }
 
-func newRunner(base int, seq int) (*runner, error) {
+func newRunner(base int, seq int, fs ...bool) (*runner, error) {
 	tag := fmt.Sprintf("c14-%d-%d", os.Getpid(), seq)
 	shm := filepath.Join("/dev/shm", tag)
 	data := filepath.Join(os.Getenv("VERIF_TMP"), tag)
@@ -519,7 +544,12 @@ func newRunner(base int, seq int) (*runner, error) {
 	cfg.ResumeWriteInterval = 24 * time.Hour // resume data is written by Close (and by explicit operations) only
 	cfg.HealthCheckInterval = 24 * time.Hour
 	cfg.TrackerStopTimeout = 2 * time.Second
-	return &runner{base: base, shm: shm, data: data, cfg: cfg, m: &model{}, res: &histResult{Ctr: map[string]int64{}}}, nil
+	m := &model{}
+	if len(fs) > 0 && fs[0] {
+		cfg.CustomStorage = nil // rain's own provider (DataDir/<id>): required by the move handler
+		m.FS = true
+	}
+	return &runner{base: base, shm: shm, data: data, cfg: cfg, m: m, res: &histResult{Ctr: map[string]int64{}}}, nil
 }
 
 func (r *runner) cleanup() {
@@ -745,6 +775,91 @@ func (r *runner) doAdd(o op) {
 	}
 }
 
+// doMoveIn: another session hands the torrent "v" over (the target side of Torrent.Move): multipart form of id, the
+// resume record as JSON, and a tar of the data. The record carries the port the torrent had in the SOURCE session:
+// a port that a torrent of this session owns, one that is free here, or one outside this session's range.
+func (r *runner) doMoveIn(o op) {
+	owned := r.m.owned()
+	freeBefore := map[int]bool{}
+	for p := r.base; p < r.base+3; p++ {
+		if _, ok := owned[p]; !ok {
+			freeBefore[p] = true
+		}
+	}
+	srcPort := r.base + 7 // "out"
+	switch o.T {
+	case "own":
+		for p := r.base; p < r.base+3; p++ {
+			if id, ok := owned[p]; ok && id != "v" {
+				srcPort = p
+				break
+			}
+		}
+	case "free":
+		for p := r.base + 2; p >= r.base; p-- { // the highest free port (the session hands out ports in its own order)
+			if freeBefore[p] {
+				srcPort = p
+				break
+			}
+		}
+	}
+	ih, _ := hex.DecodeString(fixV.IH)
+	trk := [][]string{{"http://127.0.0.1:1/announce?v=0"}}
+	ctr := [4]int64{5001, 5002, 5003, int64(5 * time.Second)}
+	spec := boltdbresumer.Spec{InfoHash: ih, Port: srcPort, Name: fixV.Name, Trackers: trk, Info: fixV.Info, AddedAt: time.Unix(1700000000, 0).UTC(),
+		BytesDownloaded: ctr[0], BytesUploaded: ctr[1], BytesWasted: ctr[2], SeededFor: time.Duration(ctr[3]), Started: false, Sequential: true, Version: boltdbresumer.LatestVersion}
+	meta, err := json.Marshal(spec)
+	if err != nil {
+		r.res.Harness = "marshal spec: " + err.Error()
+		return
+	}
+	var body bytes.Buffer
+	mw := multipart.NewWriter(&body)
+	mw.WriteField("id", "v")
+	pw, _ := mw.CreateFormField("metadata")
+	pw.Write(meta)
+	pw, _ = mw.CreateFormField("data")
+	tw := tar.NewWriter(pw)
+	tw.Close() // no data files: the torrent arrives stopped and without pieces
+	mw.Close()
+	req := httptest.NewRequest("POST", "/move-torrent", &body)
+	req.Header.Set("Content-Type", mw.FormDataContentType())
+	old := r.m.find("v")
+	if old != nil {
+		freeBefore[old.Port] = true // an existing torrent of that id is replaced: its port is given back first or kept
+	}
+	code, msg := r.s.VerifC14MoveIn(req)
+	nfree := len(freeBefore)
+	if old != nil {
+		nfree-- // the port is taken before the old torrent is removed
+	}
+	if code != 200 {
+		r.cnt("move_failed")
+		if nfree > 0 {
+			r.fail("C14.seq.move.refused", "%s: the target answered %d %q although %d port(s) are free", o, code, strings.TrimSpace(msg), nfree)
+		}
+		if old != nil && r.s.GetTorrent("v") == nil {
+			r.m.remove(old)
+		}
+		return
+	}
+	r.cnt("move_ok")
+	r.cnt("move_ok_" + o.T)
+	if old != nil {
+		r.m.remove(old)
+	}
+	t := r.s.GetTorrent("v")
+	if t == nil {
+		r.fail("C14.seq.move.lost", "%s: the target answered 200 but has no torrent %q", o, "v")
+		return
+	}
+	if !freeBefore[t.Port()] {
+		r.fail("C14.seq.move.port", "%s: the moved torrent got port offset %d, which was not a free port of this session (the record carried offset %d from the source session)", o, t.Port()-r.base, srcPort-r.base)
+	}
+	r.m.Live = append(r.m.Live, &mtor{ID: "v", Slot: "v", IH: fixV.IH, Name: fixV.Name, Port: t.Port(), Started: false, Trackers: trk,
+		Opt: [3]bool{false, false, true}, Ctr: ctr, HasInfo: true, Loaded: true})
+}
+
 func (r *runner) apply(o op) {
 	switch o.K {
 	case "addT", "addM", "badT", "badM", "stoT", "stoM":
@@ -810,6 +925,10 @@ func (r *runner) apply(o op) {
 			r.cnt("addtracker")
 			w.Trackers = append(w.Trackers, []string{uri})
 		}
+	case "fs":
+		// marker (first op of a history): the runner was built with rain's own file storage provider
+	case "mv":
+		r.doMoveIn(o)
 	case "compact":
 		r.doCompact()
 	case "reopen":
@@ -1098,7 +1217,7 @@ func (r *runner) doCompact() {
 
 // runHistory executes ops on a fresh session, checking every oracle after every operation.
 func runHistory(ops []op, base, seq int) (res *histResult) {
-	r, err := newRunner(base, seq)
+	r, err := newRunner(base, seq, len(ops) > 0 && ops[0].K == "fs")
 	if err != nil {
 		return &histResult{Harness: err.Error()}
 	}
@@ -1266,9 +1385,10 @@ func TestC14Seq(t *testing.T) {
 		core.HarnessError("%v", err)
 	}
 	os.Setenv("VERIF_TMP", scratch)
-	seqDepth, fullHouseDepth, bfsDepth := 3, 2, 0
+	seqDepth, fullHouseDepth, bfsDepth, moveDepth := 3, 2, 0, 3
 	if core.Thorough() {
 		bfsDepth = 5
+		moveDepth = 4
 	}
 	if v := os.Getenv("VERIF_C14_DEPTH"); v != "" { // debugging aid: shrink/grow the main bound
 		n, _ := strconv.Atoi(v)
@@ -1407,6 +1527,7 @@ func TestC14Seq(t *testing.T) {
 	if fullHouseDepth > 0 {
 		explore("fullhouse", []op{{K: "addT", T: "a"}, {K: "addT", T: "b"}, {K: "addM", T: "m"}}, fullHouseDepth, false, 211)
 	}
+	explore("move", []op{{K: "fs"}}, moveDepth, false, 97)
 	if bfsDepth > 0 {
 		explore("bfs", nil, bfsDepth, true, 0)
 	}
@@ -1423,7 +1544,7 @@ func TestC14Seq(t *testing.T) {
 	}
 	rep.Extra["distinct_operations_used"] = int64(len(opClasses))
 	rep.Extra["bounds"] = fmt.Sprintf("all sequences<=%d; full-house prefix + <=%d; dedup BFS depth %d; ports=3", seqDepth, fullHouseDepth, bfsDepth)
-	for _, k := range []string{"add_ok", "add_failed_garbage", "add_failed_storage", "add_failed_dup", "add_failed_noport", "rm_live", "rm_absent", "start", "stop", "addtracker", "reopen", "reopen_refused", "reopen_noresume", "restart_compared"} {
+	for _, k := range []string{"add_ok", "add_failed_garbage", "add_failed_storage", "add_failed_dup", "add_failed_noport", "move_ok_own", "move_ok_free", "move_ok_out", "rm_live", "rm_absent", "start", "stop", "addtracker", "reopen", "reopen_refused", "reopen_noresume", "restart_compared"} {
 		if totals[k] == 0 {
 			rep.Vacuous("vacuous: counter %s is zero", k)
 		}
